@@ -87,6 +87,7 @@ type CLayout struct {
 	HasFirst  bool
 	Pages     []*CPage
 	CycleTo   int // -1: the last page has no next; k: the last page's next is page k
+	PageLinks bool // pages also carry first/prev/last
 	Total     int // totalItems announced (-1 none)
 }
 
@@ -188,6 +189,7 @@ func (f *Fedi) DrawLayout(host string, mkItem func(remote bool) CItem) *CLayout 
 		if np == 0 {
 			l.HasFirst = false
 		}
+		l.PageLinks = t.Chance(1, 3)
 		for i := 0; i < np; i++ {
 			p := &CPage{Items: itemsFor(), Remote: t.Chance(1, 2), NoID: t.Chance(1, 6)}
 			p.URL = fmt.Sprintf("https://%s/c/%d", host, f.next())
@@ -228,6 +230,9 @@ func (f *Fedi) Install(l *CLayout) {
 	if l.CycleTo >= 0 {
 		l.Pages[l.CycleTo].Remote = true
 	}
+	if l.PageLinks && len(l.Pages) > 0 {
+		l.Pages[0].NoID = false
+	}
 	kind := "Collection"
 	itemsKey := "items"
 	if l.Ordered {
@@ -262,6 +267,14 @@ func (f *Fedi) Install(l *CLayout) {
 			d["next"] = ref(i + 1)
 		} else if l.CycleTo >= 0 {
 			d["next"] = l.Pages[l.CycleTo].URL
+		}
+		// real servers put first/prev/last on pages too; paging must follow next only
+		if l.PageLinks {
+			d["first"] = l.Pages[0].URL
+			d["last"] = l.Pages[len(l.Pages)-1].URL
+			if i > 0 {
+				d["prev"] = l.Pages[i-1].URL
+			}
 		}
 		pageDocs[i] = d
 	}
